@@ -66,6 +66,12 @@ pub enum Container {
     LmerTight,
     /// zero-copy: pieces are sub-slices of (possibly reverse-complemented) views into one packed string
     SliceViews,
+    /// the older entry point `msp::simple_scan` (P <= 8) decides intervals and bucket ids; pieces are
+    /// cut from the read by the caller
+    SimpleScan,
+    /// one packed string per read, `Scanner` intervals, pieces are `DnaString::slice`s and the flanks
+    /// come from `Exts::from_dna_string`
+    OwnedStringSlices,
 }
 
 #[derive(Clone, Debug, Serialize, Deserialize, PartialEq)]
@@ -527,6 +533,81 @@ where
     run_with::<K, P, DnaStringSlice>(c, rec, &sharder)
 }
 
+/// The older sharder entry point: `simple_scan` returns (bucket, start, len) intervals; the caller
+/// cuts the pieces and reads the flanking bases off the read.
+#[allow(deprecated)]
+fn run_simple_scan<K, P>(c: &Case, rec: &mut Rec) -> Result<(), Violation>
+where
+    K: Kmer + Send + Sync + Serialize + DeserializeOwned,
+    P: Kmer,
+{
+    let k = K::k();
+    if P::k() > 8 {
+        return run_v::<K, P, DnaBytes>(c, rec);
+    }
+    rec.count("reach_simple_scan_sharder");
+    let rc = c.msp_rc;
+    let identity: Vec<usize> = (0..1usize << (2 * P::k())).collect();
+    let sharder = |ri: usize, perm: Option<&[usize]>| -> Vec<(u32, Exts, DnaBytes)> {
+        let r = &c.reads[ri];
+        if r.len() < k {
+            return Vec::new();
+        }
+        let whole = DnaBytes(r.clone());
+        debruijn::msp::simple_scan::<_, P>(k, &whole, perm.unwrap_or(&identity), rc)
+            .into_iter()
+            .map(|iv| {
+                let (a, b) = (iv.start(), iv.start() + iv.len());
+                let l = if a > 0 { 1u8 << r[a - 1] } else { 0 };
+                let rx = if b < r.len() { 1u8 << r[b] } else { 0 };
+                (iv.bucket() as u32, Exts::new((rx << 4) | l), DnaBytes(r[a..b].to_vec()))
+            })
+            .collect()
+    };
+    run_with::<K, P, DnaBytes>(c, rec, &sharder)
+}
+
+/// One packed string per read; pieces are slices of it and their flanks come from
+/// `Exts::from_dna_string` (the packed-string counterpart of `from_slice_bounds`).
+fn run_owned_slices<K, P>(c: &Case, rec: &mut Rec) -> Result<(), Violation>
+where
+    K: Kmer + Send + Sync + Serialize + DeserializeOwned,
+    P: Kmer,
+{
+    use debruijn::dna_string::DnaStringSlice;
+    use debruijn::msp::Scanner;
+    let k = K::k();
+    let strings: Vec<DnaString> = c.reads.iter().map(|r| DnaString::from_bytes(r)).collect();
+    rec.count("reach_owned_slice_sharder");
+    let rc = c.msp_rc;
+    let sharder = |ri: usize, perm: Option<&[usize]>| -> Vec<(u32, Exts, DnaStringSlice)> {
+        let v = &strings[ri];
+        if v.len() < k {
+            return Vec::new();
+        }
+        let score = |pi: &P| -> usize {
+            let f = |x: &P| match perm {
+                Some(p) => p[x.to_u64() as usize],
+                None => x.to_u64() as usize,
+            };
+            if rc {
+                std::cmp::min(f(pi), f(&pi.rc()))
+            } else {
+                f(pi)
+            }
+        };
+        Scanner::new(v, score, k)
+            .scan()
+            .into_iter()
+            .map(|iv| {
+                let (a, n) = (iv.start as usize, iv.len as usize);
+                (iv.bucket() as u32, Exts::from_dna_string(v, a, n), v.slice(a, a + n))
+            })
+            .collect()
+    };
+    run_with::<K, P, DnaStringSlice>(c, rec, &sharder)
+}
+
 fn run_kp<K, P>(c: &Case, rec: &mut Rec, lmer_ok: bool) -> Result<(), Violation>
 where
     K: Kmer + Send + Sync + Serialize + DeserializeOwned,
@@ -534,6 +615,8 @@ where
 {
     match c.container {
         Container::SliceViews => run_views::<K, P>(c, rec),
+        Container::SimpleScan => run_simple_scan::<K, P>(c, rec),
+        Container::OwnedStringSlices => run_owned_slices::<K, P>(c, rec),
         Container::DnaString => run_v::<K, P, DnaString>(c, rec),
         Container::DnaBytes => run_v::<K, P, DnaBytes>(c, rec),
         Container::Lmer3 => {
@@ -637,8 +720,10 @@ impl Harness for C04 {
                 _ => rng.below(3) as u8,
             })
             .collect();
-        let container = match rng.below(7) {
+        let container = match rng.below(9) {
             6 => Container::SliceViews,
+            7 => Container::SimpleScan,
+            8 => Container::OwnedStringSlices,
             0 | 1 => Container::DnaString,
             2 | 3 => Container::DnaBytes,
             4 => {
